@@ -108,8 +108,8 @@ func (c *Chunk) grow(n int) (int, error) {
 		if x >= c.Limit {
 			return 0, ErrLimit
 		}
-		if n > c.Limit {
-			n = c.Limit
+		if n > c.Limit-x {
+			n = c.Limit - x
 		}
 	}
 	if i, ok := c.reslice(n); ok {
